@@ -189,3 +189,41 @@ end
 end roundtrip
 
 end PdfVerif.Crypt
+
+namespace PdfVerif.Crypt
+open PdfVerif PdfVerif.Gen.Crypt PdfVerif.CryptWriter
+
+/-! ### instrumented traversal -/
+
+section trace
+variable (f : Bytes → Bytes) (g : Bool → Bytes → Bytes)
+
+mutual
+theorem decipherAllT_spec (o : Obj) :
+    decipherAllT f g o = (decipherAll f g o, expectedCalls o) := by
+  cases o with
+  | str b => by_cases hb : b.isEmpty <;> simp [decipherAllT, decipherAll, expectedCalls, hb]
+  | atom a => rfl
+  | arr xs => simp only [decipherAllT, decipherAll, expectedCalls, decipherListT_spec xs]
+  | dict kvs => simp only [decipherAllT, decipherAll, expectedCalls, decipherKVsT_spec kvs]
+  | stream attrs raw =>
+    by_cases hx : attrsType attrs = some atomXRef
+    · simp only [decipherAllT, decipherAll, expectedCalls, hx, if_true]
+    · simp only [decipherAllT, decipherAll, expectedCalls, hx, if_false, decipherKVsT_spec attrs]
+theorem decipherListT_spec (xs : List Obj) :
+    decipherListT f g xs = (decipherList f g xs, expectedCallsList xs) := by
+  cases xs with
+  | nil => rfl
+  | cons x xs =>
+    simp only [decipherListT, decipherList, expectedCallsList, decipherAllT_spec x, decipherListT_spec xs]
+theorem decipherKVsT_spec (kvs : List (Bytes × Obj)) :
+    decipherKVsT f g kvs = (decipherKVs f g kvs, expectedCallsKVs kvs) := by
+  cases kvs with
+  | nil => rfl
+  | cons kv rest =>
+    obtain ⟨k, v⟩ := kv
+    simp only [decipherKVsT, decipherKVs, expectedCallsKVs, decipherAllT_spec v, decipherKVsT_spec rest]
+end
+end trace
+
+end PdfVerif.Crypt
